@@ -78,7 +78,7 @@ CHECKS = {
   note="Trusted: Apache Thrift Go protocols, verif/idl + tvalue + gocodec (fields matched by declaration order; emitted IsSet<F> defines set-ness of optional fields with defaults). Core pool only claims what a careful user writes; stress classes are C11's."),
  "C03": dict(
   level="exploration", design="§4 C03",
-  technique="runtime monitoring: emitted clients invoked by reflection over the transport x protocol matrix against emitted processors with stub handlers generated from the emitted interfaces; exactly-once by correlation id; outcome and argument equality on model-guided wire trees; wire tap for oneway replies",
+  technique="runtime monitoring: emitted clients invoked by reflection over the transport x protocol matrix against emitted processors with stub handlers generated from the emitted interfaces; exactly-once by correlation id; outcome and argument equality on model-guided wire trees; wire tap for oneway replies; shared-client concurrent phase, clients connected before Serve starts, derived-service client against a parent-only processor",
   text="Every own and inherited method of every service of random programs is called with random arguments and handler outcomes (value, declared exception, undeclared error, application exception) over in-memory, TCP, HTTP and NATS legs x 3 protocols; the caller must observe exactly the handler's outcome and the handler exactly the caller's arguments, once.",
   note="Trusted: as C02 plus verif/stubgen, the rig legs and the embedded nats-server. Service and method names are matched to emitted Go names modulo case/underscores."),
 
@@ -90,12 +90,12 @@ CHECKS = {
 
  "C01": dict(
   level="exploration", design="§4 C01",
-  technique="runtime monitoring: interleavings enumerated by DFS and enforced on the real adapter/NATS transports through verif yield points; hook-free concurrent stress with PRNG response plans; porcupine linearizability check of recorded registry histories",
+  technique="runtime monitoring: interleavings enumerated by DFS and enforced on the real adapter/NATS transports through verif yield points; hook-free concurrent stress with PRNG response plans (NATS: frames also published on other requests' reply subjects); porcupine linearizability check of recorded registry histories",
   text="Every interleaving (bounded: k<=3 callers, <=3 duplicates, late and never-issued ids; exhaustive for small plans, seeded samples for larger ones) of caller/reader/timeout/unregister steps is forced on the real code and each caller's outcome compared with the frame that was delivered to it; plus thousands of unconstrained concurrent trials and linearizability of Register/Unregister/dispatch histories. Held-on-observed.",
   note="Trusted: hook placement (request.registered / send.begin / send.end / request.gotResult / request.timedOut mark the steps they name), the reference frame codec, porcupine. Schedules are at hook granularity, not instruction granularity."),
  "C06": dict(
   level="exploration", design="§4 C06",
-  technique="runtime monitoring: enforced schedules holding registrations across duplicate deliveries, logical blocked-forever oracle on hook events (send.begin without send.end while no goroutine can receive), fresh-request liveness probe, hook-free burst stress",
+  technique="runtime monitoring: enforced schedules holding registrations across duplicate deliveries, logical blocked-forever oracle on hook events (send.begin without send.end while no goroutine can receive), fresh-request liveness probe, hook-free burst stress, fragmented-stream leg (responses handed over in PRNG-cut pieces incl. split size prefixes, optionally with one request blocked in the underlying Write) decided by reader-idle / reader-parked-on-lock criteria",
   text="The reader's progress is observed after every adversarial inbound history (duplicates x4, late, unknown ids) under enforced interleavings and under free-running stress with up to 64 callers; a stall is reported only when the delivery provably cannot complete. Bounded progress, not unbounded liveness.",
   note="Trusted: hook placement; the claim 'only the caller receives from its result channel' (true for both transports). An eventual-delivery bug slower than the 3 s observation window without a parked delivery would be inconclusive, not a violation."),
  "C17": dict(
@@ -111,7 +111,7 @@ CHECKS = {
 
  "C04": dict(
   level="exploration", design="§4 C04",
-  technique="runtime monitoring: differential execution of the real Go header codec against a reference codec written from the documentation and against the repository's Python codec, over seeded random header maps",
+  technique="runtime monitoring: differential execution of the real Go header codec against a reference codec written from the documentation and against the repository's Python codec, over seeded random header maps; a child process writes the headers of a built-in context while another goroutine replaces one (every block must parse and carry a value the context held)",
   text="Every Go writer and reader of the v0 header block is executed on thousands of generated header maps and compared byte-for-byte / map-for-map with an independent reference codec and with lib/python/frugal/util/headers.py run unmodified under CPython; held-on-observed, not a proof.",
   note="Trusted: the reference codec (wire/frame.go, ~100 lines from documentation/protocol.md), CPython, the stub TProtocolException class. The unexported test-only unmarshalFrame is not covered (unreachable from the API)."),
 }
